@@ -164,9 +164,15 @@ def check_key(prog, ctx):
             ctx.check(s in read_slots, rid, hk, hk.node, f"hashkey omits {s}",
                       f"{cname}.hashkey hashes slot {s}")
             if s in ("_chargemap", "_extents"):
-                kinds = {p[1] for (_, p) in r if len(p) > 1 and p[0] == s}
-                ctx.check("values" in kinds or "<whole>" in kinds, rid, hk, hk.node, f"hashkey omits the sizes in {s}",
-                          f"{cname}.hashkey hashes both the keys and the values of {s}")
+                sub = {p[1:] for (_, p) in r if len(p) > 1 and p[0] == s}
+                kinds = {q[0] for q in sub}
+                ctx.check(("values" in kinds and "keys" in kinds) or "<whole>" in kinds, rid, hk, hk.node,
+                          f"hashkey omits keys or values of {s}", f"{cname}.hashkey hashes both the keys and the values of {s}")
+                if s == "_extents":
+                    inner = {q[1] for q in sub if len(q) > 1 and q[0] == "values"}
+                    ctx.check(("keys" in inner and "values" in inner) or "<whole>" in inner or "<whole>" in kinds, rid, hk, hk.node,
+                              "hashkey omits sub-sector labels or sizes of _extents",
+                              f"{cname}.hashkey hashes, for every fused charge, both the sub-sector labels and their sizes")
     ctx.minimum(rid, 10, "6 plan dependencies + 5 hashed slots")
 
 
